@@ -85,7 +85,7 @@ def check(ctx, src):
                 ctx.ok("LOCK-REGION", key, f"inside locked region ({how})")
             else:
                 ctx.bad("LOCK-REGION", key, f"`{COUNTER}` is accessed outside the region protected by `{LOCK}`", REL, n.line,
-                        witness="thread A reads the counter here while thread B is between its increment and its copy: both get the same number")
+                        witness="thread A reads the counter here while thread B is between its increment and its copy: both get the same number", local=True)
     ctx.need(inits == 1, f"expected exactly one module-level initialisation of {COUNTER}, found {inits}")
 
     # --- region advances the counter and copies it ----------------------------------
